@@ -1,17 +1,26 @@
 /* C27 harness (arena part): drives the real parsec_arena_allocate_device_private / parsec_arena_release (and through
  * them parsec_arena_get_chunk / parsec_arena_release_chunk) along TLC-generated schedules (mode replay), over every
  * interleaving at yield-point granularity (mode explore), along seeded random schedules (mode random) or free-running
- * (mode stress).  The arena's data_malloc / data_free callbacks are the harness' own: every block obtained from or
- * given back to the system is logged with a small block id; each owner fills its block with a private byte pattern
- * and checks it before releasing.  The history goes to ArenaTrace.tla as ndjson.
+ * (mode stress), or sequentially over a list of scenarios (mode sweep: the placement sweep over alignments, element
+ * sizes, counts and residues of the backing address).  The arena's data_malloc / data_free callbacks are the harness'
+ * own: a bump allocator over a private region that returns addresses with a chosen residue modulo the arena alignment
+ * (every multiple of 16, what malloc may legally return), guards each block with a canary before and after it, checks
+ * the canaries and poisons the block when it is given back.  Every block obtained from or given back to the system is
+ * logged with a small block id, its address (offset in the region) and size; every block handed out is logged with its
+ * data address, the extent the caller is entitled to (count * elem_size) and the alignment; each owner fills its whole
+ * extent with a private byte pattern and checks it before releasing.  The history goes to ArenaTrace.tla as ndjson.
  *
  *   arena_replay replay  <scenario> <schedules> <trace.ndjson> <meta.ndjson>
  *   arena_replay explore <scenario> <limit>     <trace.ndjson> <meta.ndjson>
  *   arena_replay random  <scenario> <runs>      <trace.ndjson> <meta.ndjson> <seed>
  *   arena_replay stress  <scenario> <runs>      <trace.ndjson> <meta.ndjson>
+ *   arena_replay sweep   <scenarios> -          <trace.ndjson> <meta.ndjson>      (scenarios separated by a line "end";
+ *                                                                                  threads run one after the other)
  *
  * scenario file:  mu N|inf / mc N|inf / esize E / align A / threads T / t <tid> op op ...   with op in
- *                 alloc:<count>   rel:<k> (release the block obtained by this thread's k-th operation)
+ *                 alloc:<count>[@<residue>]   rel:<k> (release the block obtained by this thread's k-th operation)
+ *                 residue = address of the backing block modulo max(align, 16), when a new block is needed for this
+ *                 operation (default: 16 * block id)
  */
 #include "parsec/parsec_config.h"
 #include "parsec/parsec_internal.h"
@@ -26,12 +35,12 @@
 #include "vtrace.h"
 #include "vsched.h"
 
-#define MAXOPS 32
+#define MAXOPS 160
 #define MAXT 16
 #define MAXB 1024
 #define INF 1000000
 enum { OP_ALLOC, OP_REL };
-typedef struct { int kind; int v; } op_t;
+typedef struct { int kind; int v; int res; } op_t;
 
 static int mu = INF, mc = INF, esize = 64, align = 16, nthreads, nops[MAXT];
 static op_t ops[MAXT][MAXOPS];
@@ -43,55 +52,93 @@ static parsec_arena_t arena;
 static parsec_data_copy_t copies[MAXT][MAXOPS];
 static parsec_data_t *dummy_data[MAXT];
 
-/* registry of the blocks currently obtained from the system (raw spinlock: never a yield point) */
-static struct { void *addr; size_t size; int id; } reg[MAXB];
+/* The backing store of the arena: a private region, bump-allocated (nothing is reused within one execution, so a
+ * block given back stays poisoned), reset by setup().  Addresses are logged as offsets in the region (< 2^31,
+ * identical from one run to the next).  Registry of the blocks currently obtained (raw spinlock: never a yield point). */
+#define REGION_SZ ((size_t)192 << 20)
+#define PRE_GUARD 64
+#define POST_GUARD_MIN 64
+#define CANARY 0xE7
+#define POISON 0xDD
+static unsigned char region[REGION_SZ] __attribute__((aligned(65536)));
+static size_t bump = 0;
+static struct { unsigned char *addr; size_t size, post; int id; } reg[MAXB];
 static volatile int reg_lock = 0;
 static int nid = 0, nlive = 0;
+static __thread int want_res = -1;               /* residue asked for by the operation in progress (-1: default) */
 static void rlock(void) { while( __sync_lock_test_and_set(&reg_lock, 1) ) ; }
 static void runlock(void) { __sync_lock_release(&reg_lock); }
 
 static void die(const char *m) { fprintf(stderr, "arena_replay: %s\n", m); exit(3); }
 
-static int reg_find(void *p, size_t *size)
+static size_t amax(void) { return (size_t)(align > 16 ? align : 16); }
+static int in_region(const void *p) { return (const unsigned char*)p >= region && (const unsigned char*)p < region + REGION_SZ; }
+static int off_of(const void *p) { return in_region(p) ? (int)((const unsigned char*)p - region) : -1; }
+
+static int reg_find(void *p, size_t *size, size_t *post)
 {
     int i, id = -1;
     rlock();
-    for( i = 0; i < MAXB; i++ ) if( reg[i].addr == p ) { id = reg[i].id; if( size ) *size = reg[i].size; break; }
+    for( i = 0; i < MAXB; i++ ) if( reg[i].addr == (unsigned char*)p ) {
+        id = reg[i].id; if( size ) *size = reg[i].size; if( post ) *post = reg[i].post; break;
+    }
     runlock();
     return id;
 }
 
 static void *my_malloc(size_t size)
 {
-    void *p = malloc(size);
+    size_t A = amax(), post = A + POST_GUARD_MIN, r, start;
+    unsigned char *p;
     int i, id;
     rlock();
     id = ++nid; nlive++;
-    for( i = 0; i < MAXB; i++ ) if( NULL == reg[i].addr ) { reg[i].addr = p; reg[i].size = size; reg[i].id = id; break; }
+    r = (want_res >= 0 ? (size_t)want_res : (size_t)16 * (size_t)id) % A;
+    r -= r % 16;                                   /* malloc never returns less than 16-byte alignment */
+    start = bump + PRE_GUARD;
+    start = (start + A - 1) / A * A + r;           /* region is aligned to 65536 >= A */
+    if( start + size + post > REGION_SZ ) { runlock(); die("backing region exhausted"); }
+    p = region + start;
+    bump = start + size + post;
+    for( i = 0; i < MAXB; i++ ) if( NULL == reg[i].addr ) { reg[i].addr = p; reg[i].size = size; reg[i].post = post; reg[i].id = id; break; }
     runlock();
     if( i == MAXB ) die("block registry full");
-    vt_ev("\"e\":\"malloc\",\"t\":%d,\"b\":%d,\"sz\":%d", cur_tid, id, (int)size);
+    memset(p - PRE_GUARD, CANARY, PRE_GUARD);
+    memset(p + size, CANARY, post);
+    vt_ev("\"e\":\"malloc\",\"t\":%d,\"b\":%d,\"sz\":%d,\"base\":%d", cur_tid, id, (int)size, off_of(p));
     return p;
 }
 
-static void my_free(void *p)
+static void my_free(void *ptr)
 {
-    int i, id = -1;
+    unsigned char *p = (unsigned char*)ptr;
+    size_t size = 0, post = 0, k;
+    int i, id = -1, can = 1;
     rlock();
-    for( i = 0; i < MAXB; i++ ) if( reg[i].addr == p ) { id = reg[i].id; reg[i].addr = NULL; nlive--; break; }
+    for( i = 0; i < MAXB; i++ ) if( NULL != p && reg[i].addr == p ) {
+        id = reg[i].id; size = reg[i].size; post = reg[i].post; reg[i].addr = NULL; nlive--; break;
+    }
     runlock();
-    vt_ev("\"e\":\"free\",\"t\":%d,\"b\":%d", cur_tid, id);
-    if( id > 0 ) free(p);           /* an unknown pointer is reported (b = -1), not freed */
+    if( id > 0 ) {                  /* an unknown pointer is reported (b = -1), not touched */
+        for( k = 0; k < PRE_GUARD; k++ ) if( p[k - PRE_GUARD] != CANARY ) can = 0;
+        for( k = 0; k < post; k++ ) if( p[size + k] != CANARY ) can = 0;
+        memset(p, POISON, size);
+    }
+    vt_ev("\"e\":\"free\",\"t\":%d,\"b\":%d,\"can\":%d", cur_tid, id, can);
 }
 
-static void parse_scenario(const char *path)
+/* reads one scenario (up to a line "end" or the end of the file); returns 0 when there was nothing to read */
+static int parse_scenario(FILE *f)
 {
-    FILE *f = fopen(path, "r");
-    char line[4096];
-    if( !f ) die("cannot open scenario");
+    char line[8192];
+    int seen = 0;
+    mu = INF; mc = INF; esize = 64; align = 16; nthreads = 0;
+    memset(nops, 0, sizeof(nops));
     while( fgets(line, sizeof(line), f) ) {
         char *tok = strtok(line, " \t\n");
         if( !tok ) continue;
+        if( !strcmp(tok, "end") ) break;
+        seen = 1;
         if( !strcmp(tok, "mu") ) { tok = strtok(NULL, " \t\n"); mu = !strcmp(tok, "inf") ? INF : atoi(tok); }
         else if( !strcmp(tok, "mc") ) { tok = strtok(NULL, " \t\n"); mc = !strcmp(tok, "inf") ? INF : atoi(tok); }
         else if( !strcmp(tok, "esize") ) esize = atoi(strtok(NULL, " \t\n"));
@@ -104,22 +151,32 @@ static void parse_scenario(const char *path)
                 op_t *o;
                 if( nops[t] >= MAXOPS ) die("too many operations");
                 o = &ops[t][nops[t]++];
-                if( !strncmp(tok, "alloc:", 6) ) { o->kind = OP_ALLOC; o->v = atoi(tok + 6); }
+                if( !strncmp(tok, "alloc:", 6) ) {
+                    char *at = strchr(tok, '@');
+                    o->kind = OP_ALLOC; o->v = atoi(tok + 6); o->res = at ? atoi(at + 1) : -1;
+                }
                 else if( !strncmp(tok, "rel:", 4) ) { o->kind = OP_REL; o->v = atoi(tok + 4); }
                 else die("bad op");
             }
         }
     }
-    fclose(f);
     if( nthreads > MAXT ) die("scenario too large");
+    if( seen && (esize <= 0 || align <= 1 || (align & (align - 1))) ) die("bad element size / alignment");
+    return seen;
 }
 
 static void setup(void)
 {
     int rc;
-    memset(reg, 0, sizeof(reg)); nid = 0; nlive = 0;
-    memset(results, 0, sizeof(results));
-    memset(copies, 0, sizeof(copies));
+    memset(reg, 0, sizeof(reg)); nid = 0; nlive = 0; bump = 0;
+    {
+        int t;
+        for( t = 0; t < MAXT; t++ ) {
+            size_t n = (size_t)(t < nthreads ? nops[t] : 0);
+            memset(results[t], 0, sizeof(results[t]));
+            memset(copies[t], 0, n * sizeof(copies[t][0]));
+        }
+    }
     PARSEC_OBJ_CONSTRUCT(&arena, parsec_arena_t);
     rc = parsec_arena_construct_ex(&arena, (size_t)esize, (size_t)align,
                                    INF == mu ? SIZE_MAX : (size_t)mu * (size_t)esize,
@@ -129,36 +186,47 @@ static void setup(void)
     arena.data_free = my_free;
 }
 
-static unsigned char tag_of(int tid, int i) { return (unsigned char)(1 + tid * MAXOPS + i); }
+/* owner marks 1..199: never the canary, the poison or the zero of untouched memory */
+static unsigned char tag_of(int tid, int i) { return (unsigned char)(1 + (tid * MAXOPS + i) % 199); }
+static int ext_of[MAXT][MAXOPS];                 /* bytes the owner asked for */
+static char tagged[MAXT][MAXOPS];                 /* the owner's mark could be written (extent inside our own memory) */
 
-static void do_alloc(int tid, int i, int c)
+static void do_alloc(int tid, int i, int c, int res)
 {
     parsec_data_copy_t *copy = &copies[tid][i];
-    int rc, id = 0, mod = 0, room = 0;
+    int rc, id = 0, doff = -1, ext = c * esize;
     vt_ev("\"e\":\"inv\",\"t\":%d,\"op\":\"alloc\",\"c\":%d", tid + 1, c);
     memset(copy, 0, sizeof(*copy));
     copy->original = dummy_data[tid];             /* allocate_device_private records the span there */
+    want_res = res;
     rc = parsec_arena_allocate_device_private(copy, &arena, (size_t)c, 0, PARSEC_DATATYPE_NULL);
+    want_res = -1;
     copy->original = NULL;                        /* no data layer here: release skips the detach */
+    tagged[tid][i] = 0; ext_of[tid][i] = ext;
     if( PARSEC_SUCCESS == rc ) {
-        size_t size = 0;
-        id = reg_find(copy->arena_chunk, &size);
-        mod = (int)((uintptr_t)copy->device_private % (uintptr_t)align);
-        room = (int)(((char*)copy->arena_chunk + size) - (char*)copy->device_private);
-        if( id > 0 && room >= c * esize )         /* the owner's mark, over everything that was asked for */
-            memset(copy->device_private, tag_of(tid, i), (size_t)c * (size_t)esize);
+        size_t size = 0, post = 0;
+        unsigned char *base = (unsigned char*)copy->arena_chunk, *d = (unsigned char*)copy->device_private;
+        id = reg_find(copy->arena_chunk, &size, &post);
+        doff = off_of(d);
+        /* the owner's mark, over everything that was asked for; an extent that leaves the block is still written as
+         * long as it stays within the guards of the block (the canary then tells at free time), never beyond */
+        if( id > 0 && doff >= 0 && d >= base - PRE_GUARD && d + ext <= base + size + post ) {
+            memset(d, tag_of(tid, i), (size_t)ext);
+            tagged[tid][i] = 1;
+        }
     }
     results[tid][i] = id < 0 ? 0 : id;
-    vt_ev("\"e\":\"res\",\"t\":%d,\"op\":\"alloc\",\"b\":%d,\"mod\":%d,\"room\":%d", tid + 1, id, mod, room);
+    vt_ev("\"e\":\"res\",\"t\":%d,\"op\":\"alloc\",\"b\":%d,\"data\":%d,\"ext\":%d,\"al\":%d", tid + 1, id, doff, ext,
+          PARSEC_SUCCESS == rc ? (int)arena.alignment : 0);
 }
 
 static void do_rel(int tid, int as_tid, int j)
 {
     parsec_data_copy_t *copy = &copies[tid][j];
-    int id = results[tid][j], ok = 1;
-    size_t k, n = (size_t)copy->arena_chunk->count * (size_t)esize;
+    int id = results[tid][j], ok = tagged[tid][j];
+    size_t k, n = (size_t)ext_of[tid][j];
     unsigned char *d = (unsigned char*)copy->device_private;
-    for( k = 0; k < n; k++ ) if( d[k] != tag_of(tid, j) ) { ok = 0; break; }
+    if( ok ) for( k = 0; k < n; k++ ) if( d[k] != tag_of(tid, j) ) { ok = 0; break; }
     results[tid][j] = 0;
     vt_ev("\"e\":\"inv\",\"t\":%d,\"op\":\"rel\",\"b\":%d,\"tag\":%d", as_tid + 1, id, ok);
     parsec_arena_release(copy);
@@ -175,7 +243,7 @@ static void body(int tid, void *arg)
     for( i = 0; i < nops[tid]; i++ ) {
         op_t *o = &ops[tid][i];
         if( i > 0 && controlled ) vs_yield();          /* operation boundary = yield point */
-        if( OP_ALLOC == o->kind ) { do_alloc(tid, i, o->v); alloc_result[tid][i] = results[tid][i]; }
+        if( OP_ALLOC == o->kind ) { do_alloc(tid, i, o->v, o->res); alloc_result[tid][i] = results[tid][i]; }
         else { if( results[tid][o->v - 1] > 0 ) do_rel(tid, tid, o->v - 1); alloc_result[tid][i] = 0; }
     }
 }
@@ -202,7 +270,8 @@ static void finish_execution(vs_run_t *r)
 {
     int t, i;
     if( nexec++ ) vt_reset_marker();
-    vt_raw("{\"e\":\"init\",\"mu\":%d,\"mc\":%d,\"al\":%d,\"es\":%d}", mu, mc, align, esize);
+    vt_raw("{\"e\":\"init\",\"mu\":%d,\"mc\":%d,\"al\":%d,\"es\":%d,\"hd\":%d}", mu, mc, align, esize,
+           (int)sizeof(parsec_arena_chunk_t));
     vt_dump();
     if( r && r->deadlock ) vt_raw("{\"e\":\"Timeout\"}");
     fprintf(meta, "{\"sched\":\"");
@@ -232,8 +301,11 @@ static void *stress_thread(void *p) { body((int)(intptr_t)p, NULL); return NULL;
 int main(int argc, char **argv)
 {
     int t;
+    FILE *scf;
     if( argc < 6 ) die("usage");
-    parse_scenario(argv[2]);
+    scf = fopen(argv[2], "r");
+    if( !scf ) die("cannot open scenario");
+    if( !parse_scenario(scf) ) die("empty scenario");
     vt_init(1 << 14);
     if( vt_open(argv[4]) ) die("cannot open trace output");
     meta = fopen(argv[5], "w");
@@ -290,7 +362,16 @@ int main(int argc, char **argv)
             wrapup();
             finish_execution(NULL);
         }
+    } else if( !strcmp(argv[1], "sweep") ) {
+        controlled = 0;
+        do {
+            setup();
+            for( t = 0; t < nthreads; t++ ) body(t, NULL);
+            wrapup();
+            finish_execution(NULL);
+        } while( parse_scenario(scf) );
     } else die("bad mode");
+    fclose(scf);
     fclose(meta);
     vt_close();
     return 0;
